@@ -2,11 +2,11 @@
    bool, option, unit, list, prod, sumbool; N / positive / nat stay inductive). *)
 Require Extraction.
 Require Import ExtrOcamlBasic.
-From HV Require Import XmlNs.XTreeModel XmlNs.XSerModel XmlNs.XTreeSpec XmlNs.XSerSpec XmlNs.XRoundTrip.
+From HV Require Import XmlNs.XTreeModel XmlNs.XSerModel XmlNs.XTreeSpec XmlNs.XSerSpec XmlNs.XRoundTrip XmlNs.XLexHyps.
 Extraction Language OCaml.
 Extraction "Extract/xmlns_model.ml"
   XTreeModel.tokenize XTreeModel.run XTreeModel.document XTreeModel.erase
   XTreeModel.parse_tokens XTreeModel.parse_raw XTreeModel.terrs XTreeModel.tpanic
   XSerModel.ser_doc XSerModel.render XSerModel.serialize XSerModel.item_rtoken
   XSerModel.lex_text XSerModel.lex_attr_value XSerModel.escape XSerModel.decl_rawattr XSerModel.attr_rawattr
-  XSerSpec.forest_cons XSerSpec.adequate XSerSpec.roundtrip_tok XRoundTrip.rt_hyps.
+  XSerSpec.forest_cons XSerSpec.adequate XSerSpec.roundtrip_tok XRoundTrip.rt_hyps XLexHyps.lex_hyps.
